@@ -28,6 +28,8 @@ PY_MODULES = {
 }
 # modules whose private helpers are expanded in place before the structural rules read them (inline.py)
 FLATTEN = {"cminx", "cminx.documenter", "cminx.config", "cminx.parser"}
+# modules whose public methods are API: only underscore-named helpers are inlined there
+FLATTEN_UNDERSCORE = {"cminx.rstwriter", "cminx.documentation_types"}
 # the hand-written part of the package (generated parser files excluded)
 HAND_WRITTEN = ["cminx", "cminx.aggregator", "cminx.documenter", "cminx.documentation_types",
                 "cminx.rstwriter", "cminx.config", "cminx.exceptions", "cminx.parser"]
@@ -93,10 +95,10 @@ class Repo:
                 raise AnalysisError(f"{rel} does not parse: {e}")
             inlined = []
             orig = tree
-            if name in FLATTEN and not os.environ.get("CMINX_SA_NO_FLATTEN"):
+            if (name in FLATTEN or name in FLATTEN_UNDERSCORE) and not os.environ.get("CMINX_SA_NO_FLATTEN"):
                 from .inline import flatten_module
                 try:
-                    tree, inlined = flatten_module(tree)
+                    tree, inlined = flatten_module(tree, underscore_only=name in FLATTEN_UNDERSCORE)
                 except RecursionError:
                     tree, inlined = orig, []
             m = Module(name, p, rel, src, tree)
